@@ -497,26 +497,16 @@ func checkGoroutineSends(c *Ctx, r *Report) {
 				key := fname(body) + ":send"
 				// capacity of the channel: free variable bound to a MakeChan in the parent
 				capOK := false
-				ch := snd.Chan
-				if ld, ok := ch.(*ssa.UnOp); ok {
-					ch = ld.X
-				}
-				if fv, ok := ch.(*ssa.FreeVar); ok {
-					if mc, ok := g.Call.Value.(*ssa.MakeClosure); ok {
-						for i, b := range body.FreeVars {
-							if b == fv && i < len(mc.Bindings) {
-								if k := makeChanCap(mc.Bindings[i]); k >= 1 {
-									capOK = true
-								}
-							}
-						}
+				if mk, ok := resolveOrigin(c, snd.Chan, 12).(*ssa.MakeChan); ok {
+					if k, isK := constInt(mk.Size); isK && k >= 1 {
+						capOK = true
 					}
 				}
-				if prm, ok := ch.(*ssa.Parameter); ok {
+				if prm, ok := snd.Chan.(*ssa.Parameter); ok && !capOK {
 					// goroutine body is a named function/method: the channel is the argument at the `go` site
 					for i, q := range body.Params {
 						if q == prm && i < len(g.Call.Args) {
-							if k := makeChanCap(g.Call.Args[i]); k >= 1 {
+							if k := makeChanCap(resolveOrigin(c, g.Call.Args[i], 12)); k >= 1 {
 								capOK = true
 							}
 						}
@@ -583,13 +573,22 @@ func checkPipeRelease(c *Ctx, r *Report) {
 		if !strings.HasSuffix(fnPkgPath(f), "/app/handlers") || f.Parent() != nil {
 			continue
 		}
-		var pr ssa.Value
+		// the function handles the consumer end of the pipe: it has a value of type *io.PipeReader (a parameter, or
+		// a field loaded from a parameter struct)
+		hasPipe := false
 		for _, p := range f.Params {
 			if isPipeReader(p.Type()) {
-				pr = p
+				hasPipe = true
 			}
 		}
-		if pr == nil {
+		eachInstr(f, func(in ssa.Instruction) {
+			if v, ok := in.(ssa.Value); ok && isPipeReader(v.Type()) {
+				if _, isPtr := v.Type().(*types.Pointer); isPtr {
+					hasPipe = true
+				}
+			}
+		})
+		if !hasPipe {
 			continue
 		}
 		eachInstr(f, func(in ssa.Instruction) {
@@ -608,7 +607,7 @@ func checkPipeRelease(c *Ctx, r *Report) {
 					return false
 				}
 				ci := describeCall(cc)
-				if ci.Recv == "PipeReader" && (ci.Name == "Close" || ci.Name == "CloseWithError") && len(cc.Args) > 0 && cc.Args[0] == pr {
+				if ci.Recv == "PipeReader" && (ci.Name == "Close" || ci.Name == "CloseWithError") && len(cc.Args) > 0 && isPipeReader(cc.Args[0].Type()) {
 					return true
 				}
 				if ci.Pkg == "io" && ci.Name == "ReadAll" {
@@ -616,7 +615,7 @@ func checkPipeRelease(c *Ctx, r *Report) {
 					if mi, ok := a.(*ssa.MakeInterface); ok {
 						a = mi.X
 					}
-					return a == pr
+					return isPipeReader(a.Type())
 				}
 				return false
 			}
